@@ -489,7 +489,7 @@ func bindsG(vs []vinfo, inits []node) string {
 // control forms whose value is the value of an inner expression of type t
 func (g *gen) control(t typ, d int) (node, bool) {
 	nilable := nilableT(t)
-	switch g.r.Intn(31) {
+	switch g.r.Intn(33) {
 	case 0:
 		g.h("progn")
 		b := g.body(t, d, 2)
@@ -736,6 +736,8 @@ func (g *gen) control(t typ, d int) (node, bool) {
 		return g.loopFormCapture(t, d)
 	case 29, 30:
 		return g.optCall(t, d)
+	case 31, 32:
+		return g.defaultClosure(t, d)
 	case 21, 22:
 		return g.shadowCall(t, d)
 	case 23:
@@ -1859,4 +1861,57 @@ func (g *gen) optCall(t typ, d int) (node, bool) {
 	calls = append(calls, mkCall(n))
 	g.pop(mark)
 	return node{lisp("let", "("+lisp(f, lam.L)+")", joinL(calls)), fmt.Sprintf("(ELet [(%s, %s)] %s)", q(f), lam.G, listG(calls))}, true
+}
+
+// a closure made by the default form of an &optional parameter (repo_fixes/C01-21): it reads / writes the ENCLOSING
+// variable (700..) although a later parameter of the same name (below 100) is bound after it, also when it is called
+// after the call has returned; and a closure made by a later default form shares an EARLIER parameter with the body
+func (g *gen) defaultClosure(t typ, d int) (node, bool) {
+	if d < 3 {
+		return node{}, false
+	}
+	g.h("idiom:closure-in-default-form")
+	names := g.freshNames(3)
+	v, f, gn := names[0], names[1], names[2]+"g"
+	z1 := int64(700 + g.r.Intn(50))
+	mark := g.push(vinfo{name: v, t: tInt}, vinfo{name: f, t: tFun, arity: 0})
+	call := func(name string) node { return node{lisp("funcall", name), fmt.Sprintf("(EFuncall (EVar %s) [])", q(name))} }
+	refV := func() node { return g.observeExpr(node{v, "(EVar " + q(v) + ")"}, 100) }
+	var lamBody node
+	if g.r.Bool() {
+		lamBody = node{lisp("setq", v, lisp("+", v, "1")), fmt.Sprintf("(ESetq [(%s, EPrim PAdd [EVar %s; %s])])", q(v), q(v), gInt(1))}
+	} else {
+		lamBody = node{v, "(EVar " + q(v) + ")"}
+	}
+	lam := g.emptyScopes(node{lisp("lambda", "()", lamBody.L), "(ELambda [] [" + lamBody.G + "])"})
+	var inner node
+	if g.r.Chance(65) {
+		// (lambda (&optional (G closure-over-outer-V) (V 5)) ..): G's V is the enclosing one
+		m2 := g.push(vinfo{name: gn, t: tFun, arity: 0}, vinfo{name: v, t: tInt, ro: true})
+		keep := node{lisp("setq", f, gn), fmt.Sprintf("(ESetq [(%s, EVar %s)])", q(f), q(gn))}
+		body := []node{keep, g.observeExpr(call(gn), 100), refV()}
+		body = append(body, g.stmts(1, d-1)...)
+		body = append(body, g.observeExpr(call(gn), 100))
+		g.pop(m2)
+		inner = node{lisp("funcall", lisp("lambda", "(&optional "+lisp(gn, lam.L)+" "+lisp(v, "5")+")", joinL(body))),
+			fmt.Sprintf("(EFuncall (ELambdaO [] [(%s, %s); (%s, %s)] %s) [])", q(gn), lam.G, q(v), gInt(5), listG(body))}
+	} else {
+		// (lambda (&optional (A 1) (G (lambda () A))) (setq A 70x) (funcall G)): G shares the parameter A
+		an := v + "a"
+		m2 := g.push(vinfo{name: an, t: tInt}, vinfo{name: gn, t: tFun, arity: 0})
+		rd := g.emptyScopes(node{lisp("lambda", "()", an), "(ELambda [] [EVar " + q(an) + "])"})
+		set := node{lisp("setq", an, fmt.Sprint(z1)), fmt.Sprintf("(ESetq [(%s, %s)])", q(an), gInt(z1))}
+		keep := node{lisp("setq", f, gn), fmt.Sprintf("(ESetq [(%s, EVar %s)])", q(f), q(gn))}
+		body := []node{g.observeExpr(call(gn), 100), set, keep, g.observeExpr(call(gn), 100)}
+		g.pop(m2)
+		inner = node{lisp("funcall", lisp("lambda", "(&optional "+lisp(an, "1")+" "+lisp(gn, rd.L)+")", joinL(body))),
+			fmt.Sprintf("(EFuncall (ELambdaO [] [(%s, %s); (%s, %s)] %s) [])", q(an), gInt(1), q(gn), rd.G, listG(body))}
+	}
+	after := []node{g.observeExpr(call(f), 100), refV()}
+	rest := g.body(t, d-1, 1)
+	g.pop(mark)
+	all := append(append([]node{inner}, after...), rest...)
+	dummy := node{lisp("lambda", "()", "0"), "(ELambda [] [" + gInt(0) + "])"}
+	return node{lisp("let", "("+lisp(v, fmt.Sprint(z1))+" "+lisp(f, dummy.L)+")", joinL(all)),
+		fmt.Sprintf("(ELet [(%s, %s); (%s, %s)] %s)", q(v), gInt(z1), q(f), dummy.G, listG(all))}, true
 }
